@@ -249,9 +249,11 @@ func (env *SpecEnv) modItems(c *Clause) (items []locItem, err error) {
 				items = append(items, locItem{class: d, sort: ds, loc: m}, locItem{class: v, sort: vs, loc: m}, locItem{class: mapLenClass, sort: mapLenSort, loc: m})
 				continue
 			case "gfall":
+				// the specification-only field `name` of every object and of every interface value
 				t := env.resolveTypeExpr(a.Args[2])
 				cl, so := ghostClass(a.Args[1].Name, t)
-				items = append(items, locItem{class: cl, sort: so, all: true})
+				items = append(items, locItem{class: cl, sort: so, all: true},
+					locItem{class: "GI|" + a.Args[1].Name, sort: arraySort("Iface", sortOf(t)), all: true})
 				continue
 			case "gf", "gfi":
 				o, _ := env.tr(a.Args[1])
@@ -501,6 +503,10 @@ func (e *FnExec) call(st *State, instr ssa.Instruction, c *ssa.CallCommon, res s
 			if g, ok := e.con.Guards[gk]; ok {
 				env := e.specEnv(st, instr.Pos())
 				t, err := env.boolExpr(g)
+				if err != nil && strings.Contains(err.Error(), "no such contracted call") {
+					// the guard speaks about a call the function does not make (any more): it cannot hold
+					t, err = False, nil
+				}
 				if err != nil {
 					e.errf("%v", err)
 				} else {
@@ -613,7 +619,21 @@ func (e *FnExec) call(st *State, instr ssa.Instruction, c *ssa.CallCommon, res s
 		gk := fmt.Sprintf("%s#%d", name, e.guardN[name])
 		if g, ok := e.con.Guards[gk]; ok {
 			env := e.specEnv(st, instr.Pos())
+			// the actual arguments of the guarded call: arg0, arg1, ... (receiver not counted)
+			off := 0
+			if sig != nil && sig.Recv() != nil {
+				off = 1
+			}
+			if sig != nil {
+				for k := 0; k < sig.Params().Len() && off+k < len(args); k++ {
+					env.vars[fmt.Sprintf("arg%d", k)] = specVar{args[off+k], sig.Params().At(k).Type()}
+				}
+			}
 			t, err := env.boolExpr(g)
+			if err != nil && strings.Contains(err.Error(), "no such contracted call") {
+				// the guard speaks about a call the function does not make (any more): it cannot hold
+				t, err = False, nil
+			}
 			if err != nil {
 				e.errf("%v", err)
 			} else {
@@ -735,6 +755,14 @@ func (e *FnExec) initCallArgGhosts() {
 	var texts []string
 	for _, c := range e.con.Ensures {
 		texts = append(texts, c.Text)
+	}
+	for _, c := range e.con.Guards {
+		texts = append(texts, c.Text)
+	}
+	for _, l := range e.con.Loops {
+		for _, c := range l.Invariants {
+			texts = append(texts, c.Text)
+		}
 	}
 	names := map[string]bool{}
 	for _, t := range texts {
